@@ -660,6 +660,11 @@ func CheckC15(h *History, blk *BlockRecord) []Violation {
 	for _, d := range sortedKeys(denoms) {
 		before, after := h.Prev.Supply.AmountOf(d), s.Supply.AmountOf(d)
 		after = after.Add(burnt.AmountOf(d)) // supply as it would be without the explicit burn
+		// standard governance burns (the deposit of a vetoed proposal) are burns by the gov module account
+		if gb := BurnedBy(blk)[GovAddr()].AmountOf(d); gb.IsPositive() {
+			after = after.Add(gb)
+			h.Labels["gov-deposit-burnt/"+d]++
+		}
 		if before.Equal(after) {
 			continue
 		}
